@@ -26,9 +26,10 @@ pub struct SeqJob {
     pub depth1: usize,
     pub depth2: usize,
     pub max_states: usize,
-    /// `resize()` spawns and joins one OS thread per shard, which costs ~0.5 ms per thread in this
-    /// sandbox and does not parallelise across processes; the number of `resize` calls is therefore
-    /// budgeted explicitly. Pass 1: sequences of length <= `resize_any_depth` may contain `resize`
+    /// `resize()` used to spawn and join one OS thread per shard (~0.5 ms per thread in this sandbox, not
+    /// parallelisable across processes), so the number of `resize` calls was budgeted explicitly. With
+    /// foyer-memory's `verif` spawner seam the per-shard jobs run inline and the budgets are lifted (99)
+    /// wherever the alphabet contains `resize`. Pass 1: sequences of length <= `resize_any_depth` may contain `resize`
     /// anywhere; sequences of length <= `resize_last_depth` may end with one. Pass 2: histories
     /// containing a `resize` are explored up to length `resize2_depth`.
     pub resize_any_depth: usize,
